@@ -23,14 +23,44 @@ class _ClockState:
     base = _real_dt.datetime(2001, 1, 1)
     ticks = 0  # number of now() calls since the clock was last set
     calls = 0  # number of now() calls during the current request
+    mono = 0.0  # simulated monotonic seconds
+    time_calls = 0  # time.time() / monotonic() calls (none on today's tree)
 
 
 CLOCK = _ClockState()
 
 
 def set_clock(iso: str) -> None:
-    CLOCK.base = _real_dt.datetime.fromisoformat(iso)
+    new = _real_dt.datetime.fromisoformat(iso)
+    # the monotonic clock follows forward movement of the wall clock only
+    delta = (new - CLOCK.base).total_seconds()
+    if delta > 0:
+        CLOCK.mono += delta
+    CLOCK.base = new
     CLOCK.ticks = 0
+
+
+_EPOCH = _real_dt.datetime(1970, 1, 1)
+
+
+def sim_time() -> float:
+    CLOCK.ticks += 1
+    CLOCK.time_calls += 1
+    return (CLOCK.base - _EPOCH).total_seconds() + CLOCK.ticks * 1e-6
+
+
+def sim_time_ns() -> int:
+    return int(sim_time() * 1e9)
+
+
+def sim_monotonic() -> float:
+    CLOCK.ticks += 1
+    CLOCK.time_calls += 1
+    return 1000.0 + CLOCK.mono + CLOCK.ticks * 1e-6
+
+
+def sim_monotonic_ns() -> int:
+    return int(sim_monotonic() * 1e9)
 
 
 def _now(tz=None):
@@ -293,7 +323,7 @@ class _SfShim:
 
 # ------------------------------------------------------------------- install
 
-INSTALLED = {"datetime": [], "uuid4": [], "sf": []}
+INSTALLED = {"datetime": [], "uuid4": [], "sf": [], "time": []}
 
 
 def install(aoef: bool = True, audio: bool = False) -> dict:
@@ -301,9 +331,21 @@ def install(aoef: bool = True, audio: bool = False) -> dict:
     io.open = sim_open
     builtins.open = sim_open
     os.mkdir = sim_mkdir
+    # any timer or expiry a change to soundevent introduces reads these
+    import time as _time  # noqa: PLC0415
+
+    _time.time = sim_time
+    _time.time_ns = sim_time_ns
+    _time.monotonic = sim_monotonic
+    _time.monotonic_ns = sim_monotonic_ns
+    _time.perf_counter = sim_monotonic
+    INSTALLED["time"] = ["time.time", "time.time_ns", "time.monotonic",
+                         "time.monotonic_ns", "time.perf_counter"]
     if aoef:
         for name, module in sorted(sys.modules.items()):
-            if module is None or not name.startswith("soundevent.io"):
+            if module is None or not (
+                name == "soundevent" or name.startswith("soundevent.")
+            ):
                 continue
             if getattr(module, "datetime", None) is _real_dt:
                 module.datetime = DATETIME_SHIM
